@@ -49,7 +49,7 @@ pub fn gen_pay(r: &mut Rng, mix: &PayMix, st: &GenState) -> Pay {
     let k = kinds[r.weighted(&mix.weights)];
     let seed = r.next();
     let len = match k {
-        PK::Empty => 0,
+        PK::Empty | PK::Literal => 0,
         PK::Tiny => r.range(1, 8) as usize,
         PK::Bin | PK::InvalidUtf8 => {
             // WAL steering: sometimes aim the ring's write head at interesting places
@@ -118,6 +118,7 @@ pub fn gen_history(seed: u64, max_ops: usize, allow_abandon: bool, extra: bool) 
     let w_doc = if extra && r.chance(1, 3) { 1 } else { 0 };
     let dim = r.range(1, 16) as usize;
     let use_uri = r.chance(1, 2);
+    let w_steer = if r.chance(1, 3) { 3 } else { 0 };
     for _ in 0..n_ops {
         if !st.open {
             ops.push(Op::Open);
@@ -125,14 +126,16 @@ pub fn gen_history(seed: u64, max_ops: usize, allow_abandon: bool, extra: bool) 
             st.flush();
             continue;
         }
-        let c = r.weighted(&[w_put, w_upd, w_del, w_commit, w_reopen, w_abandon, w_emb, w_check, w_vac, w_doc]);
+        let c = r.weighted(&[w_put, w_upd, w_del, w_commit, w_reopen, w_abandon, w_emb, w_check, w_vac, w_doc, w_steer]);
         match c {
             0 | 6 => {
                 let pay = gen_pay(&mut r, &mix, &st);
                 st.n += 1;
                 let mut spec = PutSpec { pay: Some(pay.clone()), ts: Some(r.range(0, 2_000_000_000) as i64 - 1_000_000_000), ..Default::default() };
                 if use_uri && r.chance(2, 3) {
-                    spec.uri = Some(format!("mv2://doc/{}", st.n));
+                    // sometimes the same uri is ingested again with a plain put (two active versions)
+                    let k = if r.chance(1, 6) { 1 + r.below(st.n) } else { st.n };
+                    spec.uri = Some(format!("mv2://doc/{k}"));
                 }
                 if r.chance(1, 4) {
                     spec.title = Some(format!("Title {}", st.n));
@@ -212,6 +215,18 @@ pub fn gen_history(seed: u64, max_ops: usize, allow_abandon: bool, extra: bool) 
                 st.open = false;
             }
             7 => ops.push(Op::Check),
+            10 => {
+                // park the log's write head within 48 bytes of (or exactly at) the region end: a
+                // calibrating put to the middle, a commit (pending bytes back to zero, head stays),
+                // then the steered put; it stays below the 75 % checkpoint threshold
+                ops.push(Op::PutSteer { gap: r.range(24_000, 36_000), seed: r.next() });
+                ops.push(Op::Commit);
+                st.pending.push(vec![(true, false, false)]);
+                st.flush();
+                ops.push(Op::PutSteer { gap: *r.pickv(&[0u64, 1, 8, 24, 40, 47, 48, 60]), seed: r.next() });
+                st.pending.push(vec![(true, false, false)]);
+                st.n += 2;
+            }
             8 => {
                 ops.push(Op::Vacuum);
                 st.flush();
@@ -323,6 +338,10 @@ pub fn gen_corpus(seed: u64, cfg: &CorpusCfg) -> Scenario {
         }
         let mut spec = PutSpec { pay: Some(pay), ts: Some(*r.pickv(&ts_pool)), ..Default::default() };
         spec.uri = Some(format!("mv2://{}/{d}", if r.chance(1, 2) { "a" } else { "b" }));
+        if cfg.mutate && d > 0 && r.chance(1, 10) {
+            // re-ingest under a uri that is already in use (plain put, both versions stay active)
+            spec.uri = Some(format!("mv2://{}/{}", if r.chance(1, 2) { "a" } else { "b" }, r.below(d as u64)));
+        }
         if r.chance(1, 3) {
             spec.tags = vec![r.pick(&["red", "blue"]).to_string()];
         }
